@@ -231,13 +231,13 @@ class Run:
         self.results += bad
         return bad
 
-    def harness_cmd(self, args, race=False, env=None, timeout=3600):
+    def harness_cmd(self, args, race=False, env=None, timeout=3600, ok_codes=(0,)):
         binp = self.build(race)
         e = dict(os.environ, TWH_PROP=self.prop, VERIF_SEED=str(self.seed), TWH_SCRATCH=self.dir)
         if env:
             e.update(env)
         p = subprocess.run([binp] + args, env=e, capture_output=True, text=True, timeout=timeout)
-        if p.returncode not in (0,):
+        if p.returncode not in ok_codes:
             raise Infra("harness %s failed: %s" % (args[0], p.stderr[-2000:]))
         return p.stdout
 
